@@ -6,6 +6,7 @@ package interp
 import (
 	"fmt"
 	"math/big"
+	"regexp"
 	"sort"
 	"strings"
 
@@ -43,23 +44,24 @@ type VarInfo struct {
 }
 
 type PathResult struct {
-	Decisions   []string
-	Status      string // completed | panic | exit | aborted | ended
-	Detail      string
-	Site        string
-	Violations  []*Violation
-	Covers      map[string]bool
-	Steps       int64
-	NewPrefixes [][]string
-	Asserts     map[string]int // label -> number of times discharged (unsat or concretely true)
-	Witness     *Witness       // path witness for cross-validation (optional)
-	Queries     solver.Stats
-	Funcs       []string
-	Stubs       []string
-	Assumptions []string
-	Unknowns    int
-	Recovered   []string
-	MaxVars     int
+	Decisions     []string
+	Status        string // completed | panic | exit | aborted | ended
+	Detail        string
+	Site          string
+	Violations    []*Violation
+	Covers        map[string]bool
+	Steps         int64
+	NewPrefixes   [][]string
+	Asserts       map[string]int // label -> number of times discharged (unsat or concretely true)
+	Witness       *Witness       // path witness for cross-validation (optional)
+	Queries       solver.Stats
+	Funcs         []string
+	Stubs         []string
+	Assumptions   []string
+	Unknowns      int
+	BranchUnknown int
+	Recovered     []string
+	MaxVars       int
 }
 
 // Witness is a concrete model of the final path condition and the values the
@@ -91,6 +93,7 @@ type Exec struct {
 	panicSite       string
 	abortSite       string
 	haltMsg         string
+	decTerms        []*sym.Term
 	lastRecoverSite string
 	recovered       []string
 	stubs           map[string]bool
@@ -140,11 +143,33 @@ func (x *Exec) addPC(c *sym.Term) {
 }
 
 func (x *Exec) check(extra ...*sym.Term) solver.Result {
+	return x.checkT(0, extra...)
+}
+
+// feasible is a branch-feasibility query: short timeout; unknown keeps the
+// branch (over-approximation, sound for proving goals) and is counted apart.
+func (x *Exec) feasible(extra ...*sym.Term) solver.Result {
 	for _, e := range extra {
 		if e.IsFalse() {
 			return solver.Unsat
 		}
 	}
+	x.S.NextTimeout = 8000
+	r, _, err := x.S.Check(extra, nil)
+	if err != nil || r == solver.Unknown {
+		x.res.BranchUnknown++
+		return solver.Unknown
+	}
+	return r
+}
+
+func (x *Exec) checkT(timeout int, extra ...*sym.Term) solver.Result {
+	for _, e := range extra {
+		if e.IsFalse() {
+			return solver.Unsat
+		}
+	}
+	x.S.NextTimeout = timeout
 	r, _, err := x.S.Check(extra, nil)
 	if err != nil {
 		x.res.Unknowns++
@@ -199,12 +224,12 @@ func (x *Exec) branch(c *sym.Term) bool {
 		}
 		panic(fmt.Sprintf("decision mismatch: got %q at a branch (non-deterministic re-execution?)", d))
 	}
-	rt := x.check(c)
+	rt := x.feasible(c)
 	if rt == solver.Unsat {
 		x.record("f")
 		return false
 	}
-	rf := x.check(sym.Not(c))
+	rf := x.feasible(sym.Not(c))
 	if rf == solver.Unsat {
 		x.record("t")
 		return true
@@ -301,7 +326,7 @@ func (x *Exec) assume(c *sym.Term) {
 		x.addPC(c)
 		return
 	}
-	if x.check(c) == solver.Unsat {
+	if x.feasible(c) == solver.Unsat {
 		x.record("a0")
 		panic(endPath{"assumption infeasible"})
 	}
@@ -422,13 +447,22 @@ func (x *Exec) assert(c *sym.Term, label string) {
 		}
 		panic(fmt.Sprintf("decision mismatch: got %q at assert %s", d, label))
 	}
-	r := x.check(sym.Not(c))
+	r := x.checkT(20000, sym.Not(c))
 	switch r {
 	case solver.Unsat:
 		x.record("h")
 		x.res.Asserts[label]++
 		return
 	case solver.Unknown:
+		// nonlinear integer arithmetic: try to prove the goal on the real
+		// relaxation (sound for unsat only)
+		if x.relaxedUnsat(sym.Not(c)) {
+			x.res.Unknowns--
+			x.record("h")
+			x.res.Asserts[label]++
+			x.assumptions["goal(s) discharged on the real relaxation of the integer formula (unsat there implies unsat over the integers)"] = true
+			return
+		}
 		x.record("h")
 		panic(abortPath{"solver unknown on goal " + label})
 	}
@@ -455,7 +489,7 @@ func (x *Exec) cover(c *sym.Term, label string) {
 	if x.pos < len(x.prefix) {
 		return // covered (or not) when this prefix was first explored
 	}
-	if x.check(c) == solver.Sat {
+	if x.feasible(c) == solver.Sat {
 		x.res.Covers[label] = true
 	}
 }
@@ -547,4 +581,64 @@ func sortedKeys(m map[string]bool) []string {
 	}
 	sort.Strings(ks)
 	return ks
+}
+
+// decMarker returns the opaque string standing for the decimal text of t.
+func (x *Exec) decMarker(t *sym.Term) string {
+	if t.IsConst() {
+		return t.Val.String()
+	}
+	x.decTerms = append(x.decTerms, t)
+	return fmt.Sprintf("%sdec:%d%s", symMarker, len(x.decTerms)-1, symMarkerEnd)
+}
+
+var decRe = regexp.MustCompile("^(-?)" + symMarker + "dec:([0-9]+)" + symMarkerEnd + "(0*)$")
+
+// parseDec recognises a decimal marker followed by zeros (PadZero) and returns
+// the denoted integer term.
+func (x *Exec) parseDec(s string) (*sym.Term, bool) {
+	m := decRe.FindStringSubmatch(s)
+	if m == nil {
+		return nil, false
+	}
+	var n int
+	fmt.Sscanf(m[2], "%d", &n)
+	if n < 0 || n >= len(x.decTerms) {
+		return nil, false
+	}
+	t := x.decTerms[n]
+	if k := len(m[3]); k > 0 {
+		t = sym.Mul(t, sym.Int(new(big.Int).Exp(big.NewInt(10), big.NewInt(int64(k)), nil)))
+	}
+	if m[1] == "-" {
+		t = sym.Neg(t)
+	}
+	return t, true
+}
+
+// relaxedUnsat decides pc ∧ extra on the real relaxation with a second solver
+// process; true means proved unsatisfiable.
+func (x *Exec) relaxedUnsat(extra *sym.Term) bool {
+	s, err := solver.New(x.S.Kind, x.S.Timeout)
+	if err != nil {
+		return false
+	}
+	defer s.Close()
+	r := sym.NewRelaxer()
+	var fs []*sym.Term
+	for _, p := range x.pc {
+		fs = append(fs, r.Relax(p))
+	}
+	fs = append(fs, r.Relax(extra))
+	fs = append(fs, r.Side...)
+	for _, f := range fs {
+		s.Assert(f)
+	}
+	res, _, err := s.Check(nil, nil)
+	x.S.Stats.Wall += s.Stats.Wall
+	if err == nil && res == solver.Unsat {
+		x.S.Stats.Unsat++
+		return true
+	}
+	return false
 }
